@@ -279,7 +279,8 @@ func (ex *Exec) sprintf(args []Value) Value {
 	}
 	// anything else: an opaque message
 	op := ex.newOpaque(ex.varName("$sprintf"))
-	ex.assumeInternal(ex.tf.Cmp("bvult", op.len, ex.tf.Const(64, 1<<16)), "opaque Sprintf result shorter than 65536")
+	ex.tf.VarRanged(op.name+".len", 64, 0, 1<<16-1)
+	ex.assumeInternal(ex.tf.And(ex.tf.Cmp("bvsle", ex.tf.Const(64, 0), op.len), ex.tf.Cmp("bvslt", op.len, ex.tf.Const(64, 1<<16))), "opaque Sprintf result shorter than 65536")
 	return ex.mkStr([]seg{{op: op}})
 }
 
@@ -371,7 +372,8 @@ func (ex *Exec) initIntrinsics() {
 	in["fmt.Sprintf"] = func(ex *Exec, fr *Frame, a []Value) Value { return ex.sprintf(a) }
 	in["fmt.Sprint"] = func(ex *Exec, fr *Frame, a []Value) Value {
 		op := ex.newOpaque(ex.varName("$sprint"))
-		ex.assumeInternal(tf.Cmp("bvult", op.len, tf.Const(64, 1<<16)), "opaque Sprint result shorter than 65536")
+		tf.VarRanged(op.name+".len", 64, 0, 1<<16-1)
+		ex.assumeInternal(tf.And(tf.Cmp("bvsle", tf.Const(64, 0), op.len), tf.Cmp("bvslt", op.len, tf.Const(64, 1<<16))), "opaque Sprint result shorter than 65536")
 		return ex.mkStr([]seg{{op: op}})
 	}
 	in["fmt.Errorf"] = func(ex *Exec, fr *Frame, a []Value) Value {
